@@ -57,6 +57,12 @@ AdmittingAlt(op, cs) == CHOOSE i \in DOMAIN Alts(op) : Alts(op)[i].scheme = cs
 
 NoneStr == "-"
 IdOf(in) == IF HasId(in.op) THEN in.id ELSE NoneStr      \* the path parameter, if the route has one
+(* The media-type lists of the matched route, projected onto what they were when the router first  *)
+(* handed the route out (index of each entry in that first view): the operations consume            *)
+(* "application/json; charset=utf-8", "text/plain" + the appended API default, and produce two      *)
+(* types.  No request may reorder or rewrite them for the requests that follow (seeds C09-13/14).   *)
+RouteView == <<"c:0,1,2", "p:0,1">>
+
 DataOf(in) == IF HasId(in.op) THEN in.id ELSE in.body    \* what the test handler returns
 
 AuthOK(in) == Secured(in.op) /\ in.cs # NoneStr /\ Admits(in.op, in.cs) /\ in.cu # "bad"
@@ -191,7 +197,7 @@ StepState(s, r) ==
 StepObs(s, r) ==
   LET in == s.in[r]
       k  == Stage(s, r)
-  IN CASE k = "route"     -> <<Pattern(in.op), IdOf(in)>>   \* the fresh MatchedRoute copy carries this request's params
+  IN CASE k = "route"     -> (<<Pattern(in.op), IdOf(in)>> \o RouteView)   \* the fresh MatchedRoute copy carries this request's params
        [] k = "authcall"  -> LET sch == Alts(in.op)[AuthCallIndex(s, r)].scheme
                              IN <<sch, IF in.cs = sch THEN in.cu ELSE NoneStr>>
        [] k = "alt"       -> <<in.cs>>
